@@ -3,6 +3,8 @@ package main
 import (
 	"fmt"
 	"math/rand"
+	"os"
+	"path/filepath"
 	"runtime"
 	"strings"
 	"sync"
@@ -11,6 +13,7 @@ import (
 
 	"github.com/jsightapi/jsight-schema-core/fs"
 
+	"github.com/jsightapi/jsight-api-core/jerr"
 	"github.com/jsightapi/jsight-api-core/kit"
 	"github.com/jsightapi/jsight-api-core/verifhook"
 
@@ -20,7 +23,31 @@ import (
 
 var serOps = []string{"json", "jsonindent", "openapi", "openapiindent", "title"}
 
-func buildMem(name string, content []byte, ban ...[]string) (b *built) {
+// buildProj builds one project of a concurrency job: from memory, or - when it has files - from the directory they were written to.
+func buildProj(p proto.ConcProject, idx int) *built {
+	if len(p.Files) == 0 {
+		return buildMem(p.Name, p.Content, "", p.SharedBan...)
+	}
+	return buildMem(p.Name, nil, filepath.Join(baseDir, "conc", fmt.Sprint(idx), p.Root), p.SharedBan...)
+}
+
+func materialiseConc(c *proto.ConcJob) error {
+	_ = os.RemoveAll(filepath.Join(baseDir, "conc"))
+	for i, p := range c.Projects {
+		for name, content := range p.Files {
+			f := filepath.Join(baseDir, "conc", fmt.Sprint(i), name)
+			if err := os.MkdirAll(filepath.Dir(f), 0o755); err != nil {
+				return err
+			}
+			if err := os.WriteFile(f, content, 0o644); err != nil {
+				return err
+			}
+		}
+	}
+	return nil
+}
+
+func buildMem(name string, content []byte, path string, ban ...[]string) (b *built) {
 	b = &built{}
 	defer func() {
 		if r := recover(); r != nil {
@@ -32,7 +59,13 @@ func buildMem(name string, content []byte, ban ...[]string) (b *built) {
 	if oerr != nil {
 		panic("harness: " + oerr.Error())
 	}
-	j, je := kit.NewJApiFromFile(fs.NewFile(name, content), opts...)
+	var j kit.JApi
+	var je *jerr.JApiError
+	if path != "" {
+		j, je = kit.NewJapi(path, opts...)
+	} else {
+		j, je = kit.NewJApiFromFile(fs.NewFile(name, content), opts...)
+	}
 	b.j = j
 	if je != nil {
 		b.err = errInfo(je)
@@ -58,6 +91,10 @@ func buildSig(b *built) string {
 // shared catalogs. All observers that keep state are removed for the duration (they would add happens-before edges).
 func runConc(c *proto.ConcJob) *proto.ConcResult {
 	res := &proto.ConcResult{}
+	if err := materialiseConc(c); err != nil {
+		res.Mismatches = append(res.Mismatches, "harness: cannot write the projects: "+err.Error())
+		return res
+	}
 	saveFA, saveSS, savePh := verifhook.OnFileAccess, verifhook.OnScanStep, verifhook.OnPhase
 	verifhook.OnFileAccess, verifhook.OnScanStep, verifhook.OnPhase = nil, nil, nil
 	var yields int64
@@ -86,7 +123,7 @@ func runConc(c *proto.ConcJob) *proto.ConcResult {
 	baseline := make([]base, len(c.Projects))
 	computeBaseline := func() {
 		for i, p := range c.Projects {
-			b := buildMem(p.Name, p.Content, p.SharedBan...)
+			b := buildProj(p, i)
 			baseline[i] = base{build: buildSig(b), outs: map[string]string{}}
 			if b.accepted {
 				for _, op := range serOps {
@@ -129,7 +166,7 @@ func runConc(c *proto.ConcJob) *proto.ConcResult {
 				defer wg.Done()
 				<-start
 				p := c.Projects[idx]
-				b := buildMem(p.Name, p.Content, p.SharedBan...)
+				b := buildProj(p, idx)
 				atomic.AddInt64(&builds, 1)
 				if c.ColdStart {
 					o := obs{idx: idx, build: buildSig(b), outs: map[string]string{}}
@@ -191,7 +228,7 @@ func runConc(c *proto.ConcJob) *proto.ConcResult {
 			if baseline[i].build != "OK" {
 				continue
 			}
-			b := buildMem(p.Name, p.Content, p.SharedBan...)
+			b := buildProj(p, i)
 			if !b.accepted {
 				addMismatch("shared build of " + p.Name + " rejected: " + buildSig(b))
 				continue
